@@ -727,6 +727,7 @@ impl desert::BinaryDeserializer for Slot {
 
 impl Slot {
     /// default expression of the FieldAdded steps below (never part of a comparison)
+    #[cfg_attr(feature = "no_dholder", allow(dead_code))]
     fn dummy() -> Slot {
         Slot(Rc::new_cyclic(|w| GNode { head: Head { label: 0 }, me: w.clone(), edges: RefCell::new(vec![]) }))
     }
@@ -735,6 +736,7 @@ impl Slot {
 /// The same kind of record through the REAL derive macro, with the added fields declared before older ones: the
 /// documented procedure (fields in declaration order, each routed to its chunk) fixes the order in which objects are
 /// offered to the stream, on both sides.
+#[cfg(not(feature = "no_dholder"))]
 #[derive(desert::BinaryCodec)]
 #[evolution(FieldAdded("g2", Slot::dummy()), FieldAdded("g3", Slot::dummy()))]
 pub struct DHolder {
@@ -764,7 +766,13 @@ fn dholder_model(c: &HolderCase) -> Vec<u8> {
     out
 }
 
+#[cfg(feature = "no_dholder")]
+fn check_dholder(_: &HolderCase, _: &[Rc<GNode>]) -> Verdict {
+    Verdict::Pass
+}
+
 /// the derived holder: bytes against the model, and the sharing between its fields after decoding
+#[cfg(not(feature = "no_dholder"))]
 fn check_dholder(c: &HolderCase, nodes: &[Rc<GNode>]) -> Verdict {
     let g = &c.g;
     let v = DHolder { g3: Slot(nodes[c.at[2]].clone()), a: c.a, g2: Slot(nodes[c.at[1]].clone()), g1: Slot(nodes[c.at[0]].clone()), s: c.s.clone() };
